@@ -195,6 +195,7 @@ def run_C15(ctx, R):
     _scoped(ctx, R, bnd3.bnd3_pointer, C15_ENTRIES, 30)
     _scoped(ctx, R, utilsx.esc1, C15_ENTRIES, 1)
     _per_config(ctx, R, utilsx.esc3)
+    _per_config(ctx, R, utilsx.idx1)
     _per_config(ctx, R, _inl(utilsx.ptr1))
 
 
@@ -202,6 +203,7 @@ def run_C16(ctx, R):
     from .rules import tab, lst, out, utilsx
     _scoped(ctx, R, utilsx.tab18, C16_ENTRIES, 3)
     _per_config(ctx, R, utilsx.esc4)
+    _per_config(ctx, R, utilsx.idx1)
     _per_config(ctx, R, _inl(utilsx.numu))
     from .rules import numcls as _numcls
     _per_config(ctx, R, lambda units, r: _numcls.num4(units, r, unit_names=('cJSON_Utils.c',)))
